@@ -14,4 +14,4 @@ def _carriers(tier):
 
 
 def groups(tier, seed):
-    return with_canaries(alg.c02(tier)) + with_canaries(layer_s.ech_groups(["C02", "C09", "C11"])) + _carriers(tier)
+    return with_canaries(alg.c02(tier)) + with_canaries(layer_s.ech_groups(["C02", "C09", "C11"])) + with_canaries(layer_s.ech0_groups(["C02", "C11"])) + _carriers(tier)
